@@ -43,6 +43,7 @@ deriving DecidableEq, Repr
 
 structure Src where
   pk : Nat
+  tok : Nat                -- identity token of the source's key (0 = None); transient: 0
   a : Option Int           -- none: not loaded on the source
   b : Option Int
   persistent : Bool        -- has an identity key (detached) vs. transient with pk set
@@ -51,14 +52,18 @@ deriving DecidableEq, Repr
 
 structure St where
   db : Nat → Option (Int × Int)
-  objs : Nat → Option Obj            -- identity map
+  objs : Nat → Nat → Option Obj      -- identity map: (pk, identity token) ↦ instance
   new : Nat → Option Obj             -- pending instances created by merge
   sql : Nat                          -- statements emitted so far
 
-def St.init : St := ⟨fun _ => none, fun _ => none, fun _ => none, 0⟩
+def St.init : St := ⟨fun _ => none, fun _ _ => none, fun _ => none, 0⟩
+
+/-- identity-map update at one key -/
+def putObj (objs : Nat → Nat → Option Obj) (k t : Nat) (o : Obj) : Nat → Nat → Option Obj :=
+  fun j u => if j = k ∧ u = t then some o else objs j u
 
 inductive Out
-  | merged (isNew : Bool) (a b : Option Int) (dirty : Bool)
+  | merged (isNew : Bool) (tok : Nat) (a b : Option Int) (dirty : Bool)   -- tok: token of the result's key
   | error            -- InvalidRequestError (load=False with transient / dirty source)
   | skip
 deriving DecidableEq, Repr
@@ -91,28 +96,30 @@ def copyAttrNoLoad (x : Attr) (s : Option Int) : Attr :=
   | some v => ⟨some v, none⟩
   | none => ⟨x.cur, none⟩
 
-def outOf (isNew : Bool) (o : Obj) : Out := .merged isNew o.a.cur o.b.cur o.netChange
+def outOf (isNew : Bool) (tok : Nat) (o : Obj) : Out := .merged isNew tok o.a.cur o.b.cur o.netChange
 
-/-- `session.merge(src)` (load=True) -/
+/-- `session.merge(src)` (load=True).  The identity looked up, and loaded by
+    `Session.get(..., identity_token=key[2])`, is the source's full key. -/
 def mergeLoad (st : St) (s : Src) : St × Out :=
   match st.new s.pk with
   | some _ => (st, .skip)
   | none =>
-    match st.objs s.pk with
+    match st.objs s.pk s.tok with
     | some o =>
       let o' : Obj := ⟨copyAttr o.a s.a, copyAttr o.b s.b⟩
-      ({ st with objs := fun j => if j = s.pk then some o' else st.objs j }, outOf false o')
+      ({ st with objs := putObj st.objs s.pk s.tok o' }, outOf false s.tok o')
     | none =>
       -- Session.get: one SELECT
       match st.db s.pk with
       | some (va, vb) =>
         let o' : Obj := ⟨copyAttr (loaded va) s.a, copyAttr (loaded vb) s.b⟩
-        ({ st with objs := fun j => if j = s.pk then some o' else st.objs j, sql := st.sql + 1 }, outOf false o')
+        ({ st with objs := putObj st.objs s.pk s.tok o', sql := st.sql + 1 }, outOf false s.tok o')
       | none =>
         let o' : Obj := ⟨copyAttr unloaded s.a, copyAttr unloaded s.b⟩
-        -- a pending instance always carries history (its primary key was just set)
+        -- a pending instance always carries history (its primary key was just set); it has
+        -- no identity token
         ({ st with new := fun j => if j = s.pk then some o' else st.new j, sql := st.sql + 1 },
-         .merged true o'.a.cur o'.b.cur true)
+         .merged true 0 o'.a.cur o'.b.cur true)
 
 /-- `session.merge(src, load=False)` -/
 def mergeNoLoad (st : St) (s : Src) : St × Out :=
@@ -121,15 +128,15 @@ def mergeNoLoad (st : St) (s : Src) : St × Out :=
   | none =>
     if !s.persistent then (st, .error)
     else
-      match st.objs s.pk with
+      match st.objs s.pk s.tok with
       | some o =>
         let o' : Obj := ⟨copyAttrNoLoad o.a s.a, copyAttrNoLoad o.b s.b⟩
-        ({ st with objs := fun j => if j = s.pk then some o' else st.objs j }, outOf false o')
+        ({ st with objs := putObj st.objs s.pk s.tok o' }, outOf false s.tok o')
       | none =>
         if s.modified then (st, .error)
         else
           let o' : Obj := ⟨copyAttrNoLoad unloaded s.a, copyAttrNoLoad unloaded s.b⟩
-          ({ st with objs := fun j => if j = s.pk then some o' else st.objs j }, outOf true o')
+          ({ st with objs := putObj st.objs s.pk s.tok o' }, outOf true s.tok o')
 
 def merge (load : Bool) (st : St) (s : Src) : St × Out :=
   if load then mergeLoad st s else mergeNoLoad st s
@@ -138,8 +145,8 @@ def merge (load : Bool) (st : St) (s : Src) : St × Out :=
 
 inductive Op
   | insert (k : Nat) (a b : Int)        -- row committed by someone else before the session looks
-  | load (k : Nat)                      -- session.get
-  | set (k : Nat) (which : Bool) (v : Int)   -- which = false: a, true: b
+  | load (k t : Nat)                    -- session.get(T, k, identity_token=t)
+  | set (k t : Nat) (which : Bool) (v : Int)   -- which = false: a, true: b
   | merge (load : Bool) (s : Src)
   | flush                               -- writes pending + net changes, clears history
 deriving Repr
@@ -155,36 +162,46 @@ def rowAfter (o : Obj) (row : Option (Int × Int)) : Option (Int × Int) :=
   | some _ => some (va.getD 0, vb.getD 0)
   | none => none
 
+/-- identity tokens in use: None, "t1", "t2" -/
+def tokens : List Nat := [0, 1, 2]
+
+/-- UPDATEs of the instances of one row; the harness never flushes two modified instances
+    of one row (their UPDATE order is unspecified) -/
+def rowFlush (st : St) (k : Nat) : Option (Int × Int) :=
+  tokens.foldl (fun row t => match st.objs k t with
+                             | some o => rowAfter o row
+                             | none => row) (st.db k)
+
+def anyObj (st : St) (k : Nat) : Bool := tokens.any (fun t => (st.objs k t).isSome)
+
 def step (n : Nat) (st : St) : Op → St × Out
   | .insert k a b =>
-    match st.db k, st.objs k, st.new k with
-    | none, none, none => ({ st with db := fun j => if j = k then some (a, b) else st.db j }, .skip)
+    match st.db k, anyObj st k, st.new k with
+    | none, false, none => ({ st with db := fun j => if j = k then some (a, b) else st.db j }, .skip)
     | _, _, _ => (st, .skip)
-  | .load k =>
-    match st.new k, st.objs k, st.db k with
+  | .load k t =>
+    match st.new k, st.objs k t, st.db k with
     | none, none, some (va, vb) =>
-      ({ st with objs := fun j => if j = k then some ⟨loaded va, loaded vb⟩ else st.objs j, sql := st.sql + 1 }, .skip)
+      ({ st with objs := putObj st.objs k t ⟨loaded va, loaded vb⟩, sql := st.sql + 1 }, .skip)
     | _, _, _ => (st, .skip)
-  | .set k w v =>
-    match st.objs k with
+  | .set k t w v =>
+    match st.objs k t with
     | some o =>
       let o' : Obj := if w then ⟨o.a, setAttr o.b v⟩ else ⟨setAttr o.a v, o.b⟩
-      ({ st with objs := fun j => if j = k then some o' else st.objs j }, .skip)
+      ({ st with objs := putObj st.objs k t o' }, .skip)
     | none => (st, .skip)
   | .merge l s => merge l st s
   | .flush =>
     ({ db := fun k => if k < n then
                         (match st.new k with
                          | some o => some ((o.a.cur).getD 0, (o.b.cur).getD 0)
-                         | none => match st.objs k with
-                                   | some o => rowAfter o (st.db k)
-                                   | none => st.db k)
+                         | none => rowFlush st k)
                       else st.db k,
-       objs := fun k => if k < n then
-                          (match st.new k with
-                           | some o => some (flushObj o)
-                           | none => (st.objs k).map flushObj)
-                        else st.objs k,
+       objs := fun k t => if k < n then
+                            (match st.new k, t with
+                             | some o, 0 => some (flushObj o)
+                             | _, _ => (st.objs k t).map flushObj)
+                          else st.objs k t,
        new := fun k => if k < n then none else st.new k,
        sql := st.sql }, .skip)
 
@@ -197,8 +214,9 @@ def outs (n : Nat) (st : St) : List Op → List (Out × Nat)
   | o :: os => ((step n st o).2, (step n st o).1.sql - st.sql) :: outs n (step n st o).1 os
 
 def opOk (n : Nat) : Op → Bool
-  | .insert k _ _ | .load k | .set k _ _ => k < n
-  | .merge _ s => s.pk < n
+  | .insert k _ _ => k < n
+  | .load k t | .set k t _ _ => k < n && t < 3
+  | .merge _ s => s.pk < n && s.tok < 3 && (s.persistent || s.tok == 0)
   | .flush => true
 
 end SaVerif.Merge
